@@ -585,6 +585,21 @@ func (w *dnsWorld) newAnswer(up, name int, qtype uint16) *dnsAns {
 		}
 		a.rrs = append(a.rrs, &dnsmessage.TXT{Hdr: hdr(dnsmessage.TypeTXT), Txt: txt})
 	}
+	// C07: "all answers (any mix of A/AAAA/other records)" - the answer to a question of
+	// another type sometimes carries address records too (what an ANY-style or
+	// additional-data-in-answer upstream sends); response rules on the answer's addresses
+	// apply to them whatever the question type was.
+	if w.mode == dnsModeC07 && qtype != dnsmessage.TypeA && qtype != dnsmessage.TypeAAAA && !a.empty && (up+name+ver)%3 != 1 {
+		v4 := dnsSharedA[(up+name+ver)%3]
+		a.ips = append(a.ips, v4)
+		a.rrs = append(a.rrs, &dnsmessage.A{Hdr: hdr(dnsmessage.TypeA), A: net.IP(v4.AsSlice())})
+		if (up+name+ver)%2 == 0 {
+			v6 := dnsSharedAAAA[(name+ver)%3]
+			a.ips = append(a.ips, v6)
+			a.rrs = append(a.rrs, &dnsmessage.AAAA{Hdr: hdr(dnsmessage.TypeAAAA), AAAA: net.IP(v6.AsSlice())})
+		}
+		w.s.Probe("dns.c07-address-records-in-answer-of-another-type")
+	}
 	return a
 }
 
